@@ -174,4 +174,11 @@ P("recursion-local-nested-array",
   "function rec(int n) -> int { if (n <= 0) { return 0; } int[2][2] a; int before = a[1][0]; a[1][0] = n * 10; int inner = rec(n - 1); return before + a[1][0] + inner; }\nexport function f(int n) -> int { return rec(n) + rec(n); }",
   args=[dict(n=3)], expect=[120])
 
+P("uint-and-int-casts", "export function f(float a) -> int { uint u = 3; int i = a; uint w = u + 2; return i * 1000 + w; }",
+  args=[dict(a=-2.5), dict(a=2.5)])
+P("uint-params", "export function f(uint u, int i) -> int { int d = i - 7; uint v = u; if (v > 2) { d = d + 1; } return d + v; }",
+  args=[dict(u=5, i=-3), dict(u=0, i=100)])
+P("uint-vector-and-int", "export function f(uint3 q, int k) -> int { int s = k - 10; uint t = q.x + q.z; return s + t; }",
+  args=[dict(q=[1, 2, 3], k=-5)])
+
 PROGRAMS = [(e["name"], e["src"]) for e in ENTRIES]
